@@ -1,0 +1,106 @@
+//go:build verif
+
+package pkcs12
+
+import "encoding/asn1"
+
+// Access to encoding/asn1.Unmarshal with the unexported destination types of this
+// package for the verification harness (/verif, property C18; the schemas of these
+// types are translated into coq/Gen/Asn1Schemas.v).  Nothing here changes behaviour.
+//
+// A root name is "pkcs12." followed by the Go type expression as written inside this
+// package.
+
+// verifAsn1New returns a pointer to a fresh zero value of the named root type, nil
+// if the name is unknown; modelled tells whether Gen/Asn1Schemas.v has a schema.
+func verifAsn1New(name string) (dst interface{}, modelled bool) {
+	switch name {
+	case "pkcs12.pfxPdu":
+		return new(pfxPdu), true
+	case "pkcs12.contentInfo":
+		return new(contentInfo), true
+	case "pkcs12.[]contentInfo":
+		return new([]contentInfo), true
+	case "pkcs12.encryptedData":
+		return new(encryptedData), true
+	case "pkcs12.encryptedContentInfo":
+		return new(encryptedContentInfo), true
+	case "pkcs12.[]safeBag":
+		return new([]safeBag), true
+	case "pkcs12.safeBag":
+		return new(safeBag), true
+	case "pkcs12.pkcs12Attribute":
+		return new(pkcs12Attribute), true
+	case "pkcs12.macData":
+		return new(macData), true
+	case "pkcs12.digestInfo":
+		return new(digestInfo), true
+	case "pkcs12.certBag":
+		return new(certBag), true
+	case "pkcs12.encryptedPrivateKeyInfo":
+		return new(encryptedPrivateKeyInfo), true
+	case "pkcs12.pbeParams":
+		return new(pbeParams), true
+	case "pkcs12.asn1.RawValue":
+		return new(asn1.RawValue), true
+	case "pkcs12.[]byte":
+		return new([]byte), true
+	case "pkcs12.pkcs8":
+		return new(pkcs8), true
+	case "pkcs12.asn1.ObjectIdentifier":
+		return new(asn1.ObjectIdentifier), true
+	case "pkcs12.ecPrivateKey":
+		return new(ecPrivateKey), true
+	}
+	return nil, false
+}
+
+var verifAsn1AllNames = []string{
+	"pkcs12.pfxPdu", "pkcs12.contentInfo", "pkcs12.[]contentInfo", "pkcs12.encryptedData",
+	"pkcs12.encryptedContentInfo", "pkcs12.[]safeBag", "pkcs12.safeBag",
+	"pkcs12.pkcs12Attribute", "pkcs12.macData", "pkcs12.digestInfo", "pkcs12.certBag",
+	"pkcs12.encryptedPrivateKeyInfo", "pkcs12.pbeParams", "pkcs12.asn1.RawValue",
+	"pkcs12.[]byte", "pkcs12.pkcs8", "pkcs12.asn1.ObjectIdentifier", "pkcs12.ecPrivateKey",
+}
+
+func verifAsn1Select(modelled bool) []string {
+	var out []string
+	for _, n := range verifAsn1AllNames {
+		if dst, m := verifAsn1New(n); dst != nil && m == modelled {
+			out = append(out, n)
+		}
+	}
+	return out
+}
+
+// VerifAsn1Names lists the root names this package can unmarshal into and that have a
+// schema in Gen/Asn1Schemas.v (same strings, without guarantee of order).
+func VerifAsn1Names() []string { return verifAsn1Select(true) }
+
+// VerifAsn1Unmodelled lists the root names VerifAsn1Unmarshal also accepts (real
+// destinations of asn1.Unmarshal in this package) that have no schema in
+// Gen/Asn1Schemas.v (none at present).
+func VerifAsn1Unmodelled() []string { return verifAsn1Select(false) }
+
+// VerifAsn1Unmarshal calls encoding/asn1.Unmarshal(b, p), p a pointer to a fresh zero
+// value of the named root type, and returns what it returns; known=false if the name
+// is neither one of VerifAsn1Names nor one of VerifAsn1Unmodelled.
+func VerifAsn1Unmarshal(name string, b []byte) (rest []byte, err error, known bool) {
+	dst, _ := verifAsn1New(name)
+	if dst == nil {
+		return nil, nil, false
+	}
+	rest, err = asn1.Unmarshal(b, dst)
+	return rest, err, true
+}
+
+// VerifAsn1UnmarshalValue is VerifAsn1Unmarshal that also hands back the decoded value
+// (the pointer passed to asn1.Unmarshal), for drivers that compare field contents.
+func VerifAsn1UnmarshalValue(name string, b []byte) (val interface{}, rest []byte, err error, known bool) {
+	dst, _ := verifAsn1New(name)
+	if dst == nil {
+		return nil, nil, nil, false
+	}
+	rest, err = asn1.Unmarshal(b, dst)
+	return dst, rest, err, true
+}
